@@ -347,7 +347,7 @@ func TestC15(t *testing.T) {
 		rec.ReportKnown("FN1", hit && judge(ty, e, c15Run(k.ctx, ty, "muldiv", a, b, c, oracle.TowardZero)) != "")
 	}
 
-	n := evid.N(30_000, 1_200_000)
+	n := evid.N(30_000, 350_000)
 	for _, ty := range types {
 		r := evid.Rand(int64(evid.Hash("C15", ty.Name) % 1000003))
 		p := oracle.NewPicker(ty)
